@@ -1,2 +1,207 @@
-/- Oracle for C15 (stub: replaced when the property's model is built). -/
-def main : IO Unit := pure ()
+/-
+  Oracle for C15.  Reads the harness' stream (harness/cmd/c15) and prints the model's lines.
+
+  text cases      T <hex>                       ->  R ...
+  edit histories  H <id> / E <op> <arg> / J     ->  B ... / L ...
+  simulations     S ... / M ... / U ... / G     ->  X / K / W / C lines of BMV.Simbox.Sim.simLoop with
+                                                    `fabricStep`, and a verdict line
+                                                    P ok | P fail <what>   = the property itself
+                                                    evaluated on the *implementation's* K/W lines
+  Strings travel as 'x' + hex of their UTF-8 bytes.
+-/
+import BMV.Simbox
+import BMV.Lines
+open BMV.Simbox BMV.Simbox.Sim BMV.Lines
+
+def hexVal (c : Char) : Nat :=
+  if c.isDigit then c.toNat - 48 else if 'a' ≤ c ∧ c ≤ 'f' then c.toNat - 87 else 0
+
+def unhex (s : String) : String :=
+  let cs := (s.toList.drop 1)
+  let rec go : List Char → List UInt8
+    | a :: b :: rest => (UInt8.ofNat (hexVal a * 16 + hexVal b)) :: go rest
+    | _ => []
+  match String.fromUTF8? (ByteArray.mk (go cs).toArray) with
+  | some r => r
+  | none => "�"
+
+def hexDigit (n : Nat) : Char := if n < 10 then Char.ofNat (48 + n) else Char.ofNat (87 + n)
+
+def enhex (s : String) : String :=
+  "x" ++ String.ofList (s.toUTF8.toList.flatMap fun b => [hexDigit (b.toNat / 16), hexDigit (b.toNat % 16)])
+
+def b01 (b : Bool) : String := if b then "1" else "0"
+
+def ruleDump (r : Rule) : String :=
+  s!"{r.timec.code}.{r.tick}.{r.action.code}.{enhex r.object}.{enhex r.extra}.{b01 r.suspended}"
+
+def boxDump (b : Box) : String := ";".intercalate (b.map ruleDump)
+
+def timecOfCode : Nat → Timec
+  | 0 => .abs | 1 => .notime | 2 => .rel | 3 => .onValid | 4 => .onRecv | _ => .onExit
+def actionOfCode : Nat → Action
+  | 0 => .set | 1 => .get | 2 => .show | _ => .config
+
+/-! ### simulation glue -/
+
+/-- number formatting of bmnumbers for the types the generator uses (8-bit registers) -/
+def toBase (b : Nat) (n : Nat) : String := String.ofList (Nat.toDigits b n)
+
+def fmtVal (bits : Nat) (ty : String) (v : Nat) : String :=
+  if ty = "hex" then s!"0x<{bits}>{toBase 16 v}"
+  else if ty = "bin" then s!"0b<{bits}>{toBase 2 v}"
+  else toString v
+
+structure SimCase where
+  id : String := ""
+  ticks : Nat := 0
+  stopOn : Option Nat := none
+  report : Bool := false
+  sh : Shape := ⟨8, 0, 0, []⟩
+  topo : Topo := ⟨[], [], []⟩
+  bondNames : List String := []
+  rules : Box := []
+  implK : List (Nat × List (String × Nat × Nat × Nat) × List (String × Nat × Nat × Nat)) := []  -- tick, pre, post
+  implW : List (Nat × String) := []
+
+def parseEnd (s : String) : End :=
+  match s.splitOn "." with
+  | [a, b, c] => ⟨nat! a, nat! b, nat! c⟩
+  | _ => ⟨9, 0, 0⟩
+
+def parseProc (s : String) : Nat × Nat × Nat :=
+  match s.splitOn ":" with
+  | [a, b, c] => (nat! a, nat! b, nat! c)
+  | _ => (0, 0, 0)
+
+/-- `i0:5:1:0` -/
+def parseCell (s : String) : String × Nat × Nat × Nat :=
+  match s.splitOn ":" with
+  | [n, v, a, b] => (n, nat! v, nat! a, nat! b)
+  | _ => ("?", 0, 0, 0)
+
+def ioCells (sh : Shape) (vm : Vm) : String :=
+  let ins := (List.range sh.nIn).map fun k =>
+    s!"i{k}:{readD vm (.inReg k)}:{readD vm (.inValid k)}:{readD vm (.inRecv k)}"
+  let outs := (List.range sh.nOut).map fun k =>
+    s!"o{k}:{readD vm (.outReg k)}:{readD vm (.outValid k)}:{readD vm (.outRecv k)}"
+  ",".intercalate (ins ++ outs)
+
+def showLine (bits : Nat) (vals : List (Nat × String × Nat)) : String :=
+  String.join (vals.map fun (_, ty, v) => fmtVal bits ty v ++ " ")
+
+def csvRow (c : Compiled) (bits : Nat) (t : Nat) (vals : List (Nat × String × Nat)) : String :=
+  let cells := (List.range c.gets.slots.length).map fun i =>
+    match vals.find? (fun (j, _, _) => j == i) with
+    | some (_, ty, v) => fmtVal bits ty v
+    | none => ""
+  ",".intercalate ((if c.conf.getTicks then [toString t] else []) ++ cells)
+
+/-- the property itself on the implementation's dumps: at every tick the state handed to the
+    machine step differs from the previous state exactly by the firing set rules (value, valid
+    flag raised, received inputs no longer valid, nothing else) -/
+def checkInjection (cs : SimCase) (c : Compiled) : Option String := Id.run do
+  let mut prev : List (String × Nat × Nat × Nat) := []
+  let mut first := true
+  for (t, pre, post) in cs.implK do
+    let fired := firing c.acts t
+    for (name, v, va, rc) in pre do
+      let (pv, pva, prc) := match prev.find? (fun (n, _, _, _) => n == name) with
+        | some (_, a, b, d) => (a, b, d)
+        | none => (0, 0, 0)
+      let _ := first
+      match resolve cs.sh name with
+      | none => return some s!"t={t} unknown cell {name}"
+      | some l =>
+        let hit := fired.reverse.find? (fun a => a.loc == l)
+        let expV := match hit with | some a => a.val | none => pv
+        let isIn := match l with | .inReg _ => true | _ => false
+        let expVa := if isIn then (if hit.isSome then 1 else if prc == 1 then 0 else pva) else pva
+        if v != expV then return some s!"t={t} {name} value {v} expected {expV}"
+        if va != expVa then return some s!"t={t} {name} valid {va} expected {expVa}"
+        if rc != prc then return some s!"t={t} {name} recv {rc} expected {prc}"
+    prev := post
+    first := false
+  return none
+
+def runSim (cs : SimCase) : List String :=
+  match compile cs.sh cs.bondNames cs.rules with
+  | .error _ => ["X init", "P ok"]
+  | .ok c =>
+    let bits := (wbits cs.sh.rsize).getD 8
+    let tr := simLoop (fabricStep cs.topo) c cs.stopOn cs.report cs.ticks (initVm cs.sh cs.topo)
+    let hdr := if cs.report then
+        ["C hdr=" ++ ",".intercalate ((if c.conf.getTicks then ["tick"] else []) ++ c.gets.slots.map (·.name))]
+      else []
+    let body := tr.flatMap fun r =>
+      (if r.shutdown then [] else [s!"K t={r.tick} pre={ioCells cs.sh r.pre} post={ioCells cs.sh r.post}"])
+      ++ (if r.shown.isEmpty then [] else [s!"W t={r.tick} vals={enhex (showLine bits r.shown)}"])
+    let rows := tr.flatMap fun r =>
+      match r.reported with | some vals => ["C row=" ++ csvRow c bits r.tick vals] | none => []
+    let cls := match tr.getLast? with
+      | some r => if r.fatal == 0 then "ok"
+                  else if r.fatal == 1 && hasZeroPeriod c.shows then "divzero"
+                  else if r.fatal == 2 && hasZeroPeriod c.gets && !(c.conf.getAll || c.conf.getAllInternal) then "divzero"
+                  else "fatal"
+      | none => "ok"
+    let verdict := match checkInjection cs c with
+      | none => "P ok"
+      | some w => "P fail " ++ w
+    body ++ hdr ++ rows ++ ["X " ++ cls, verdict]
+
+structure St where
+  box : Box := []
+  sim : SimCase := {}
+
+def parseRuleDump (fs : List String) : Option Rule :=
+  match fs with
+  | [tc, tk, a, o, e, s] => some ⟨timecOfCode (nat! tc), nat! tk, actionOfCode (nat! a), unhex o, unhex e, s == "1"⟩
+  | _ => none
+
+def step (s : St) (line : String) : St × List String :=
+  let fs := fields line
+  match fs with
+  | ["T", h] =>
+    let str := unhex h
+    match addStr str with
+    | none => (s, [line, "R err"])
+    | some r =>
+      let rt := if addStr (ruleString r) == some r then "ok" else "fail"
+      (s, [line, s!"R ok {ruleDump r} S={enhex (ruleString r)} RT={rt}"])
+  | "H" :: _ => ({ s with box := [] }, [line])
+  | ["E", op, arg] =>
+    let e : Edit := match op with
+      | "add" => .add (unhex arg)
+      | "del" => .del (nat! arg)
+      | "sus" => .suspend (nat! arg)
+      | _ => .reactivate (nat! arg)
+    let err := rejects s.box e
+    let b' := applyEdit s.box e
+    ({ s with box := b' }, [line, s!"B err={b01 err} n={b'.length} rules={boxDump b'} P={enhex (printBox b')}"])
+  | ["J"] =>
+    let rb := match rebuild s.box with | some b => if b == s.box then "ok" else "diff" | none => "none"
+    (s, [line, s!"L rules={boxDump s.box} rebuild={rb}"])
+  | "S" :: rest =>
+    let stop := match kv rest "stop" with | some "-" => none | some k => some (nat! k) | none => none
+    ({ s with sim := { id := (kv rest "id").getD "", ticks := nat! ((kv rest "ticks").getD "0"), stopOn := stop,
+                       report := (kv rest "report") == some "1" } }, [line])
+  | "M" :: rest =>
+    let sh : Shape := ⟨nat! ((kv rest "rsize").getD "8"), nat! ((kv rest "nin").getD "0"), nat! ((kv rest "nout").getD "0"),
+      (commaList ((kv rest "procs").getD "")).map parseProc⟩
+    let topo : Topo := ⟨(commaList ((kv rest "iin").getD "")).map parseEnd, (commaList ((kv rest "iout").getD "")).map parseEnd,
+      (commaList ((kv rest "links").getD "")).map fun x => if x == "-" then none else some (nat! x)⟩
+    ({ s with sim := { s.sim with sh := sh, topo := topo, bondNames := commaList ((kv rest "names").getD "") } }, [line])
+  | ["U", d] =>
+    match parseRuleDump (d.splitOn ".") with
+    | some r => ({ s with sim := { s.sim with rules := s.sim.rules ++ [r] } }, [line])
+    | none => (s, [line, "bad-rule"])
+  | "K" :: rest =>
+    let t := nat! ((kv rest "t").getD "0")
+    let pre := (commaList ((kv rest "pre").getD "")).map parseCell
+    let post := (commaList ((kv rest "post").getD "")).map parseCell
+    ({ s with sim := { s.sim with implK := s.sim.implK ++ [(t, pre, post)] } }, [])
+  | ["G"] => ({ s with sim := {} }, runSim s.sim ++ ["G"])
+  | _ => (s, [])
+
+def main : IO Unit := do
+  let _ ← foldStdin ({} : St) step
